@@ -392,7 +392,7 @@ Proof.
       as [[[[|m t] v]|]| |]; try discriminate; try exact H.
     destruct (m =? 0); [discriminate|exact H]. }
   clear H. revert H'. unfold run_validator.
-  destruct (s_val r) as [c| | | | | | |]; try discriminate.
+  destruct (s_val r) as [c| | | | | | | |]; try discriminate.
   - unfold check_format_input_vector. rewrite andb_false_r.
     destruct (check_array_shape _ _ _ s); try discriminate.
     destruct (v_reshape c).
@@ -415,4 +415,152 @@ Proof.
     + destruct (v_forbid_negative0 cylseg_cfg && _); [discriminate|].
       destruct vals as [|a [|b [|c [|d [|e [|f t]]]]]]; try discriminate.
       destruct (cylseg_bad _ _ _ _ _); [discriminate|]. intros H. inversion H. tauto.
+Qed.
+
+(* ------------------------------------------------------------------ whole assignments *)
+Lemma vec_arr c s vals : check_format_input_vector c (IArray s vals) =
+  match check_array_shape (v_dims c) (v_shape_m1 c) (v_length c) s with
+  | Bad => Rejected | Crash => Crashed
+  | Ok => if v_reshape c then reshape_rows3 s vals
+          else if v_forbid_negative0 c && existsb (fun x => Qleb x (qz 0)) vals then Rejected
+          else Stored (Some (s, vals)) end.
+Proof. unfold check_format_input_vector. rewrite andb_false_r. reflexivity. Qed.
+
+Lemma cas_tri dims m1 len s : zmem 0 dims = false ->
+  check_array_shape dims m1 len s = if cas_spec dims m1 len s then Ok else Bad.
+Proof.
+  intros H0. pose proof (cas_ok_iff dims m1 len s) as Hi. pose proof (cas_no_crash dims m1 len s H0) as Hc.
+  destruct (cas_spec dims m1 len s); destruct (check_array_shape dims m1 len s); try reflexivity;
+    try (exfalso; apply Hc; reflexivity);
+    try (destruct Hi as [Hi1 Hi2]; try discriminate (Hi1 eq_refl); try discriminate (Hi2 eq_refl)).
+Qed.
+
+Lemma cas_vec_b n s : cas_spec [1] (Some n) None s = in_doc (DVec n) s.
+Proof. apply eq_true_iff_eq. rewrite cas_vec, doc_vec. tauto. Qed.
+Lemma cas_mat_b r n s : cas_spec [2] (Some n) (Some r) s = in_doc (DMat r n) s.
+Proof. apply eq_true_iff_eq. rewrite cas_mat, doc_mat. tauto. Qed.
+Lemma cas_grid_b n s :
+  cas_spec [1; 2; 3; 4; 5; 6; 7; 8; 9; 10; 11; 12; 13; 14; 15; 16; 17; 18; 19] (Some n) None s = in_doc (DGrid n) s.
+Proof. apply eq_true_iff_eq. apply cas_grid. Qed.
+Lemma cas_vecpath_b n s : shape_nonneg s -> empty_rows s = false ->
+  cas_spec [1; 2] (Some n) None s = in_doc (DVecOrPath n) s.
+Proof.
+  intros Hs He. apply eq_true_iff_eq. rewrite cas_vecpath, doc_vecpath.
+  split; intros [H|[m H]]; [now left| |now left|].
+  - subst s. right. exists m. split; [|reflexivity]. now apply (nonneg_rows m n).
+  - right. exists m. tauto.
+Qed.
+Lemma cas_rows1_b n s : shape_nonneg s -> empty_rows s = false ->
+  cas_spec [2] (Some n) None s = in_doc (DRows 1 n) s.
+Proof.
+  intros Hs He. apply eq_true_iff_eq. rewrite cas_rows, doc_rows.
+  split; intros [m H]; exists m; [|tauto]. subst s. split; [|reflexivity]. now apply (nonneg_rows m n).
+Qed.
+
+Lemma vecpath_size s : in_doc (DVecOrPath 3) s = true -> (size s mod 3 =? 0) = true /\ (size s / 3 =? 0) = false.
+Proof.
+  intros H. apply doc_vecpath in H. destruct H as [->|[m [Hm ->]]].
+  - vm_compute. split; reflexivity.
+  - unfold size. simpl fold_right. replace (m * (3 * 1)) with (m * 3) by lia.
+    rewrite Z_mod_mult, Z_div_mult by lia. split; lia.
+Qed.
+
+Lemma vals5 (vals : list Q) : Z.of_nat (List.length vals) = size [5] ->
+  exists a b c d e, vals = [a; b; c; d; e].
+Proof.
+  unfold size. cbn [fold_right].
+  destruct vals as [|a [|b [|c [|d [|e [|f t]]]]]]; cbn [List.length]; intros H; try lia.
+  now exists a, b, c, d, e.
+Qed.
+
+Definition bad_type_row_ok (d : doc_row) : bool :=
+  match find_setter (d_class d) (d_attr d) with
+  | Some r => match assign_vec r INotArrayLike, assign_vec r INotFloatable with
+              | Rejected, Rejected => true | _, _ => false end
+  | None => false end.
+Lemma bad_types_rejected : forallb bad_type_row_ok doc_table = true.
+Proof. vm_compute. reflexivity. Qed.
+
+Definition input_empty_rows (inp : vinput) : bool :=
+  match inp with IArray s _ => empty_rows s | _ => false end.
+
+Ltac eval_streq :=
+  repeat match goal with |- context [String.eqb ?a ?b] =>
+    let v := eval vm_compute in (String.eqb a b) in change (String.eqb a b) with v end.
+
+Ltac finish_assign :=
+  split; intros Hd; try discriminate Hd; try reflexivity; try (eexists; reflexivity).
+
+(* for every documented array attribute and every well-formed input (None, not array-like, not float-convertible, or
+   a float array of ANY shape with ANY rational entries): the translated assignment stores the value iff the
+   documentation allows it, and otherwise raises the library's input error -- never a foreign exception *)
+Lemma assign_iff_documented_lemma : forall d r inp,
+  In d doc_table -> find_setter (d_class d) (d_attr d) = Some r -> wf_vinput inp ->
+  gap_row d && input_empty_rows inp = false ->
+  (doc_accepts d inp = true -> exists v, assign_vec r inp = Stored v) /\
+  (doc_accepts d inp = false -> assign_vec r inp = Rejected).
+Proof.
+  intros d r inp Hin Hf Hwf Hgap.
+  destruct inp as [| | |s vals].
+  - (* None *) rewrite (none_is_stored_lemma d r Hin Hf). simpl. destruct (d_none d); finish_assign.
+  - pose proof bad_types_rejected as H. rewrite forallb_forall in H. specialize (H d Hin).
+    unfold bad_type_row_ok in H. rewrite Hf in H. simpl.
+    destruct (assign_vec r INotArrayLike); try discriminate. finish_assign.
+  - pose proof bad_types_rejected as H. rewrite forallb_forall in H. specialize (H d Hin).
+    unfold bad_type_row_ok in H. rewrite Hf in H. simpl.
+    destruct (assign_vec r INotArrayLike); try discriminate.
+    destruct (assign_vec r INotFloatable); try discriminate. finish_assign.
+  - destruct Hwf as [Hs Hl]. simpl input_empty_rows in Hgap. simpl in Hin.
+    repeat (destruct Hin as [<-|Hin]; [vm_compute in Hf; inversion Hf; subst r; clear Hf|]); try contradiction;
+      unfold assign_vec, doc_accepts; cbn [s_attr s_val run_validator s_post_uses d_shape d_value d_none value_ok];
+      eval_streq; cbn iota.
+    + (* position *) rewrite vec_arr. cbn [v_dims v_shape_m1 v_length v_reshape v_forbid_negative0].
+      rewrite cas_tri by reflexivity. rewrite (cas_vecpath_b 3 s Hs) by (cbn in Hgap; exact Hgap).
+      rewrite andb_true_r. destruct (in_doc (DVecOrPath 3) s) eqn:E; [|finish_assign].
+      unfold reshape_rows3. destruct (vecpath_size s E) as [-> _]. finish_assign.
+    + (* position@init *) rewrite vec_arr. cbn [v_dims v_shape_m1 v_length v_reshape v_forbid_negative0].
+      rewrite cas_tri by reflexivity. rewrite (cas_vecpath_b 3 s Hs) by (cbn in Hgap; exact Hgap).
+      rewrite andb_true_r. destruct (in_doc (DVecOrPath 3) s) eqn:E; [|finish_assign].
+      unfold reshape_rows3. destruct (vecpath_size s E) as [-> E2]. unfold init_pad. rewrite E2. finish_assign.
+    + rewrite vec_arr. cbn [v_dims v_shape_m1 v_length v_reshape v_forbid_negative0 andb].
+      rewrite cas_tri by reflexivity. rewrite cas_vec_b, andb_true_r. destruct (in_doc (DVec 3) s); finish_assign.
+    + rewrite vec_arr. cbn [v_dims v_shape_m1 v_length v_reshape v_forbid_negative0 andb].
+      rewrite cas_tri by reflexivity. rewrite cas_vec_b, andb_true_r. destruct (in_doc (DVec 3) s); finish_assign.
+    + (* pixel *) rewrite vec_arr. cbn [v_dims v_shape_m1 v_length v_reshape v_forbid_negative0 andb].
+      rewrite cas_tri by reflexivity. rewrite cas_grid_b, andb_true_r. destruct (in_doc (DGrid 3) s); finish_assign.
+    + (* Cuboid.dimension *) rewrite vec_arr. cbn [v_dims v_shape_m1 v_length v_reshape v_forbid_negative0 andb].
+      rewrite cas_tri by reflexivity. rewrite cas_vec_b, existsb_nonpos.
+      destruct (in_doc (DVec 3) s); [|finish_assign]. destruct (all_pos vals); finish_assign.
+    + (* Cylinder.dimension *) rewrite vec_arr. cbn [v_dims v_shape_m1 v_length v_reshape v_forbid_negative0 andb].
+      rewrite cas_tri by reflexivity. rewrite cas_vec_b, existsb_nonpos.
+      destruct (in_doc (DVec 2) s); [|finish_assign]. destruct (all_pos vals); finish_assign.
+    + (* CylinderSegment.dimension *) unfold check_format_input_cylinder_segment. rewrite vec_arr. unfold cylseg_cfg.
+      cbn [v_dims v_shape_m1 v_length v_reshape v_forbid_negative0 andb].
+      rewrite cas_tri by reflexivity. rewrite cas_vec_b.
+      destruct (in_doc (DVec 5) s) eqn:E; [|finish_assign].
+      apply doc_vec in E. subst s. destruct (vals5 vals Hl) as [a [b [c [e [f ->]]]]].
+      rewrite cylseg_bad_is_not_ok. cbn [andb]. destruct (cylseg_ok [a; b; c; e; f]); finish_assign.
+    + rewrite vec_arr. cbn [v_dims v_shape_m1 v_length v_reshape v_forbid_negative0 andb].
+      rewrite cas_tri by reflexivity. rewrite cas_mat_b, andb_true_r. destruct (in_doc (DMat 4 3) s); finish_assign.
+    + rewrite vec_arr. cbn [v_dims v_shape_m1 v_length v_reshape v_forbid_negative0 andb].
+      rewrite cas_tri by reflexivity. rewrite cas_mat_b, andb_true_r. destruct (in_doc (DMat 3 3) s); finish_assign.
+    + (* Polyline.vertices *) unfold check_format_input_vertices. rewrite vec_arr. unfold vertices_cfg.
+      cbn [v_dims v_shape_m1 v_length v_reshape v_forbid_negative0 andb].
+      rewrite cas_tri by reflexivity. rewrite andb_true_r.
+      destruct (cas_spec [2] (Some 3) None s) eqn:E.
+      * apply cas_rows in E. destruct E as [m ->]. cbn [shape_first py_len in_doc].
+        rewrite Z.eqb_refl, andb_true_r. replace (2 <=? m) with (negb (m <? 2)) by lia.
+        destruct (m <? 2); finish_assign.
+      * assert (E' : in_doc (DRows 2 3) s = false).
+        { destruct (in_doc (DRows 2 3) s) eqn:E'; [|reflexivity]. apply doc_rows in E'. destruct E' as [m [_ ->]].
+          assert (cas_spec [2] (Some 3) None [m; 3] = true) by (apply cas_rows; now exists m). congruence. }
+        rewrite E'. finish_assign.
+    + (* TriangularMesh vertices *) rewrite vec_arr. cbn [v_dims v_shape_m1 v_length v_reshape v_forbid_negative0 andb].
+      rewrite cas_tri by reflexivity. rewrite (cas_rows1_b 3 s Hs) by (cbn in Hgap; exact Hgap).
+      rewrite andb_true_r. destruct (in_doc (DRows 1 3) s); finish_assign.
+    + (* TriangularMesh faces *) rewrite vec_arr. cbn [v_dims v_shape_m1 v_length v_reshape v_forbid_negative0 andb].
+      rewrite cas_tri by reflexivity. rewrite (cas_rows1_b 3 s Hs) by (cbn in Hgap; exact Hgap).
+      rewrite andb_true_r. destruct (in_doc (DRows 1 3) s); finish_assign.
+    + rewrite vec_arr. cbn [v_dims v_shape_m1 v_length v_reshape v_forbid_negative0 andb].
+      rewrite cas_tri by reflexivity. rewrite cas_vec_b, andb_true_r. destruct (in_doc (DVec 3) s); finish_assign.
 Qed.
